@@ -11,6 +11,7 @@ import (
 	"path/filepath"
 	"runtime"
 	"sort"
+	"strings"
 	"testing"
 	"time"
 
@@ -43,15 +44,29 @@ type Case struct {
 	Cuts    []int    `json:"cuts"`    // truncation points as permille of the dump length, or negative = bytes from the end
 	AllCuts bool     `json:"allcuts"` // every truncation point (small dumps)
 	Damage  []Damage `json:"damage"`
+	Mixed   bool     `json:"mixed_case"` // the queries spell the names in mixed case, the answers carry the question in lower case
+	Pad     int      `json:"pad"`        // bytes of an extra TXT record in every answer (big entries: fewer than 128 of them fill half a block)
 }
 
+// per-case settings read by query() and answer(); cases run one after the other
+var curMixed bool
+var curPad int
+
 func qname(i int) string { return fmt.Sprintf("e%d.c19.example.", i) }
+
+// asked is the spelling used in queries
+func asked(i int) string {
+	if curMixed {
+		return fmt.Sprintf("E%d.C19.eXample.", i)
+	}
+	return qname(i)
+}
 
 func query(i int, id uint16) *dns.Msg {
 	m := new(dns.Msg)
 	m.Id = id
 	m.RecursionDesired = true
-	m.Question = []dns.Question{{Name: qname(i), Qtype: dns.TypeA, Qclass: dns.ClassINET}}
+	m.Question = []dns.Question{{Name: asked(i), Qtype: dns.TypeA, Qclass: dns.ClassINET}}
 	return m
 }
 
@@ -59,6 +74,14 @@ func answer(i int, e E, q *dns.Msg) *dns.Msg {
 	r := new(dns.Msg)
 	r.SetReply(q)
 	r.Rcode = e.Rcode
+	r.Question[0].Name = qname(i) // (lower case, whatever the query's spelling)
+	if curPad > 0 {
+		var chunks []string
+		for left := curPad; left > 0; left -= 250 {
+			chunks = append(chunks, strings.Repeat("p", min(250, left)))
+		}
+		r.Extra = append(r.Extra, &dns.TXT{Hdr: dns.RR_Header{Name: "pad.c19.example.", Rrtype: dns.TypeTXT, Class: dns.ClassINET, Ttl: 86400}, Txt: chunks})
+	}
 	for k, ttl := range e.TTLs {
 		rr := &dns.A{Hdr: dns.RR_Header{Name: qname(i), Rrtype: dns.TypeA, Class: dns.ClassINET, Ttl: ttl}, A: []byte{10, byte(i >> 8), byte(i), byte(k)}}
 		if e.Rcode == 0 {
@@ -97,6 +120,10 @@ func genCase(t *rapid.T) Case {
 			e.Age = 0
 		}
 		c.Entries = append(c.Entries, e)
+	}
+	c.Mixed = rapid.IntRange(0, 3).Draw(t, "mixed") == 0
+	if n >= 100 && rapid.IntRange(0, 2).Draw(t, "big") == 0 {
+		c.Pad = rapid.SampledFrom([]int{4200, 5000, 9000}).Draw(t, "pad")
 	}
 	c.AllCuts = n <= 5
 	nc := rapid.IntRange(0, 40).Draw(t, "ncuts")
@@ -192,6 +219,13 @@ func allocDuring(f func()) uint64 {
 // ---------------------------------------------------------------- property
 
 func runCase(c Case, ctx *hx.Ctx) *hx.Failure {
+	curMixed, curPad = c.Mixed, c.Pad
+	if c.Mixed {
+		ctx.Class("mixed-case-queries")
+	}
+	if c.Pad > 0 {
+		ctx.Class("big-entries")
+	}
 	// Build instance A: entries with age 0 go through the real store path of A itself;
 	// aged entries are stored in a staging instance, shifted, and loaded into A.
 	a := cachex.New(4096, c.Lazy)
